@@ -30,15 +30,7 @@ var transferCols = []wpg.Column{{Name: "ev_from", Type: "bytea"}, {Name: "ev_to"
 
 // chain whose first log of every tx is an ERC-20 Transfer and second a decoy
 func transferChain(n int, salt uint64) *simnode.Chain {
-	sig := transferEvent.SignatureHash()
-	return simnode.NewChain(n, simnode.GenOpts{Salt: salt, MakeTx: func(salt, num, idx uint64, tx *simnode.Tx) {
-		simnode.DefaultMakeTx(salt, num, idx, tx)
-		if len(tx.Logs) > 0 {
-			l := &tx.Logs[0]
-			l.Topics = [][]byte{sig, padAddr(simnode.Derive("from", salt, num, idx)[:20]), padAddr(simnode.Derive("to", salt, num, idx)[:20])}
-			l.Data = simnode.Derive("val", salt, num, idx)
-		}
-	}})
+	return simnode.NewChain(n, simnode.GenOpts{Salt: salt, MakeTx: transferMakeTx})
 }
 
 func padAddr(a []byte) []byte { return append(make([]byte, 12), a...) }
